@@ -582,22 +582,22 @@ def run_build_case(cls, b, guards, dspec):
     except Exception as ex:  # noqa: BLE001
         obj = None
         out, exc = hlib.exc_kind(ex), type(ex).__name__
-    # oracle: key k is documented by the guard of the SAME-NAMED attribute k, applied in item order
+    # oracle, independent of the order in which the code applies the keys: the dictionary describes ONE
+    # configuration (defaults overridden by every key of the dictionary); key k is judged by the documented domain
+    # of the same-named attribute k against that configuration -- for a pair, X_max against the X_min OF THE DICTIONARY
     shadow = fresh(ref)
+    for k in d:
+        if k in guards:
+            shadow.__dict__['_' + k] = d[k]
     expect = 'ok'
     first_bad = None
     for it in b['items']:
         k = it['read']
-        if k in d:
-            g = guards.get(k)
-            if g is None:
-                continue
-            m = in_domain(g['doms'], shadow, d[k])
-            if not m:
+        if k in d and k in guards:
+            if not in_domain(guards[k]['doms'], shadow, d[k]):
                 expect = 'reject'
                 first_bad = k
                 break
-            shadow.__dict__['_' + k] = d[k]
     verdict = None
     if out == 'ok':
         if expect != 'ok':
@@ -626,7 +626,7 @@ def run_build_case(cls, b, guards, dspec):
             'dict_abs': [[k, absval(vals[k])] for k, _ in dspec], 'code': code}
 
 
-def build_dicts(b, guards, small):
+def build_dicts(b, guards, small, defaults=None):
     out = []
     for it in b['items']:
         key = it['read']
@@ -645,6 +645,17 @@ def build_dicts(b, guards, small):
             for c in ([0.5] if small else [0.5, 0.0, 1.0]):
                 for sp in around(c):
                     out.append([(a, fl(c)), (key, sp)])
+            # both members relative to the DEFAULT of the companion m0: inverted, equal, valid below m0, valid above m0
+            m0 = defaults.get(a) if defaults else None
+            if not is_number(m0):
+                continue
+            m0 = float(m0)
+            mins = [m0 / 10.0, m0 / 2.0, m0, m0 + 0.25, m0 + 0.5, m0 + 10.0, 0.3, 0.5]
+            for mn in mins:
+                for mx in (mn - 0.2, nextafter(mn, -INF), mn, nextafter(mn, INF), mn + 0.2, (mn + m0) / 2.0, mn + 5.0):
+                    out.append([(a, fl(mn)), (key, fl(mx))])
+                    if not small or mn in (0.5, m0 + 10.0):
+                        out.append([(key, fl(mx)), (a, fl(mn))])        # other insertion order of the dictionary
     return out
 
 
@@ -757,7 +768,11 @@ def main():
             if b['dict'] is None or not b['items']:
                 continue
             berr = 0
-            for dspec in build_dicts(b, gmap, hlib.QUICK):
+            try:
+                dflt = {k[1:]: v for k, v in cls().__dict__.items() if k.startswith('_')}
+            except Exception:  # noqa: BLE001
+                dflt = {}
+            for dspec in build_dicts(b, gmap, hlib.QUICK, dflt):
                 try:
                     res['builds'].append(run_build_case(cls, b, gmap, dspec))
                 except Exception as ex:  # noqa: BLE001
